@@ -349,6 +349,34 @@ func runC15(c *eng.Ctx) {
 			}
 		}
 		c.Check(rng, "all-levels", nil, f, "every level is searched", "")
+		// the scan visits every file of every level: no break / return out of either loop
+		early := eng.EarlyLoopExits(f)
+		det := ""
+		for _, e := range early {
+			det += fmt.Sprintf("block %d leaves the loop headed by block %d; ", e.From.Index, e.Header.Index)
+		}
+		var at ssa.Instruction
+		if len(early) > 0 {
+			at = early[0].From.Instrs[len(early[0].From.Instrs)-1]
+		}
+		c.Check(len(early) == 0, "no-early-exit-from-the-scan", at, f, "FindFiles looks at every file of every level (ranges of files above level 0 may overlap: the first range match need not hold the key)", det)
+		for _, fk := range []string{"kv/version.version.getOverlappingInputs", snT + ".FindReaders"} {
+			g := c.Fn(fk)
+			ex := eng.EarlyLoopExits(g)
+			// a failing return inside the loop (reader could not be opened) is not a skipped element
+			n := 0
+			for _, e := range ex {
+				rb := e.From
+				if e.To != nil {
+					rb = e.To
+				}
+				if r, ok := rb.Instrs[len(rb.Instrs)-1].(*ssa.Return); ok && !instrIsSuccessReturn(g, r) {
+					continue
+				}
+				n++
+			}
+			c.Check(n == 0, "no-early-exit:"+fk, nil, g, fk+" visits every candidate file", fmt.Sprintf("%d early exits", n))
+		}
 		ld := c.Fn(snT + ".Load")
 		ff := c.One(ld, invokeOn(".version", "FindFiles"), "version.FindFiles(key)")
 		gr := c.Some(ld, invokeOn(".cache", "GetReader"), "cache.GetReader")
@@ -400,4 +428,13 @@ func runC15(c *eng.Ctx) {
 			c.Check(strings.Contains(d, ".key<") && strings.HasSuffix(d, ".key)"), "ordered-by-key", r, less, "the queue is ordered by ascending key", "Less is "+d)
 		}
 	})
+}
+
+func instrIsSuccessReturn(f *ssa.Function, r ssa.Instruction) bool {
+	for _, x := range eng.SuccessReturns(f) {
+		if x == r {
+			return true
+		}
+	}
+	return false
 }
